@@ -45,3 +45,23 @@ def _stub_codec_create(rp, builder, args):
 
 PATCHES["storage_filesystem:FilesystemStorageBackend.__init__"] = _stub_codec_create
 PATCHES["storage_base:StorageBackendBase.__init__"] = _stub_codec_create
+
+
+@contextlib.contextmanager
+def _stub_environment(rp, builder, args):
+    """Environment.get() is modelled as an opaque environment in the C13 contracts: the replay substitutes one whose clusters are
+    unlocked (get_cluster -> None), and keeps FunctionReference construction out of the way (it needs a live function object)."""
+    from unittest import mock
+    from twosigma.memento import configuration, memento
+
+    class _Env:
+        def get_cluster(self, cluster_name=None):
+            return None
+    with mock.patch.object(configuration.Environment, "get", staticmethod(lambda: _Env())), \
+            mock.patch.object(memento, "FunctionReference", lambda *a, **k: ("FunctionReference", k.get("version"))):
+        builder.notes.append("Environment.get() stubbed with an environment whose clusters are unlocked; FunctionReference stubbed")
+        yield
+
+
+for _f in ("_update_dependencies", "version", "fn_reference", "hash_rules", "_update_fn_reference"):
+    PATCHES["memento:MementoFunction." + _f] = _stub_environment
